@@ -35,7 +35,7 @@ def run_sequence(seed, steps=12, bound=None, reduction=None, order_shuffle=False
     pos, neg = [], []
     ops = []
     for t in range(steps):
-        op = rnd.choice(["contrib", "contrib_pos", "read", "update", "update_noclear", "clear", "contrib_none"])
+        op = rnd.choice(["contrib", "contrib_pos", "contrib_neg", "read", "update", "update_noclear", "clear", "contrib_none"])
         ops.append(op)
         inp = dict(seed=seed, ops=list(ops), bound=bound, reduction=None if reduction is None else "mean")
         if op == "contrib":
@@ -47,6 +47,11 @@ def run_sequence(seed, steps=12, bound=None, reduction=None, order_shuffle=False
             p = torch.rand(2, 3) * 0.2
             u.weight = p
             pos.append(p)
+        elif op == "contrib_neg":
+            # a depressing part only (what a depression-only trainer step hands over)
+            n = torch.rand(2, 3) * 0.2
+            u.weight = (None, n)
+            neg.append(n)
         elif op == "contrib_none":
             u.weight = None
         elif op == "read":
